@@ -16,6 +16,40 @@ def check(rep, tier, seed):
     R.run_and_judge(rep, "C07", "C07", cases, tier, seed)
     unknown_form(rep, tier, seed, cases)
     cross_version(rep, tier, seed)
+    record_as_tuple(rep, tier, seed)
+
+
+def record_as_tuple(rep, tier, seed):
+    """evolved-record bytes followed by a suffix, read by a tuple of the record's initial fields: whenever the
+    reference reader returns a value, exactly the suffix must be left (later chunks are skipped in full)"""
+    rng = C.rng_for(seed, "C07t")
+    harness = C.build_harness("release")
+    model = C.build_model()
+    cases = R.record_as_tuple_cases(rng, 1200 if tier == "quick" else 30000)
+    impl, mod = C.run_codec(harness, model, cases, C.workdir("C07t"), "rtup")
+    bad, dis, nok = [], [], 0
+    for c, a, m in zip(cases, impl, mod):
+        da, dm = a.partition(" ; ")[2], m.partition(" ; ")[2]
+        if dm.startswith("ok "):
+            nok += 1
+            nsfx = 0 if c["sfx"] == "-" else len(c["sfx"]) // 2
+            if not (da.startswith("ok ") and da.rsplit(" ", 1)[1] == str(nsfx)):
+                bad.append((c, a, m))
+        elif da != dm:
+            dis.append((C.codec_line(c), a, m))
+    rep.coverage["record_bytes_read_as_tuples"] = {"cases": len(cases), "reference_returns_a_value": nok, "failing": len(bad)}
+    rep.coverage["evaluations"] = rep.coverage.get("evaluations", 0) + len(cases)
+    if bad:
+        c, a, m = bad[0]
+        rep.violation(f"record bytes read by a tuple of the record's initial fields: not exactly the suffix is left: "
+                      f"{C.codec_line(c)[:140]} -> {a.partition(' ; ')[2][:80]}",
+                      {"kind": "case", "env": c["env"], "case": C.codec_line(c), "implementation": a, "reference": m,
+                       "n_failing": len(bad)})
+    elif dis:
+        l, a, b = dis[0]
+        rep.violation(f"implementation and model disagree on record bytes read as a tuple: {l[:160]}",
+                      {"kind": "correspondence", "stream": "codec/record-as-tuple", "case": l, "implementation": a, "model": b,
+                       "n_disagreements": len(dis)}, no_input=True)
 
 
 def unknown_form(rep, tier, seed, cases):
